@@ -43,7 +43,52 @@ ENGINES = [
 NOTES = ("bin/check <id> quick|thorough. Exit 2 = infrastructure failure (never a verdict). VERIF_SEED seeds all random fillings. "
          "known-findings.txt lists fixed defects (see DESIGN.md §5).")
 
+
+SM = ("TLC exhausts the property's specification for the tier's constants (the property as invariants of the model, every action covered) and exports every case; "
+      "the harness replays each case against the real code through the public API and records one event per observable step; TLC validates the recorded trace against the "
+      "trace specification (which re-uses the specification's actions / operators); a rejected trace is replayed in isolation before it is reported. ")
+
+CHECKS.update({
+    "C08": dict(engine="policy", design_ref="DESIGN.md §4 C08", technique="TLA+ model checking (TLC) of validate.TdxQuote's checks + trace validation",
+                text=SM + "For C08: every abstract relation between each configured expectation and the quote (unset, empty, equal, differing first/last byte, short, long; RTMR and allowed-MR_TD list shapes; "
+                "SVN minimums around the quote's value including byte-order-sensitive ones; component-wise TEE TCB SVN; every single XFAM / TD_ATTRIBUTES bit), singly and in pairs, on validate.TdxQuote and RawTdxQuote.", note=TRUST),
+    "C09": dict(engine="quotewire", design_ref="DESIGN.md §4 C09", technique="TLA+ model checking (TLC) of the v4 parser machine + trace validation with an independent layout table",
+                text=SM + "For C09: every single and double deviation of the size / type / length fields of a v4 quote (plus consistent re-decompositions), every truncation length, seeded large-size sweeps; "
+                "accepted inputs must have every field equal to the slice the layout dictates, re-serialise to the input and have bytes 0-631 equal header||body; structurally deviating messages must be "
+                "refused by CheckQuoteV4 / the serialiser exactly when malformed and round-trip exactly when well-formed.", note=TRUST),
+    "C10": dict(engine="quotewire", design_ref="DESIGN.md §4 C10", technique="TLA+-enumerated untrusted inputs (TLC) + trace validation that every entry point returns",
+                text=SM + "For C10 the judge is totality: byte strings (all wire cases, truncations, mutations) through QuoteToProto / verify.RawTdxQuote / validate.RawTdxQuote; structurally arbitrary messages "
+                "through CheckQuoteV4, the serialisers, verify.TdxQuote at three levels, ExtractChainFromQuote, validate.TdxQuote; endpoint responses from the grammar of PcsResponse (re-signed so the odd values are used); "
+                "SGX-extension DER from PckExt. Any panic or hang is a rejected trace.", note=TRUST + " No coverage-guided fuzzing (DESIGN.md §6)."),
+    "C13": dict(engine="pckext", design_ref="DESIGN.md §4 C13", technique="TLA+ model checking (TLC) of the extraction fold + trace validation on generated certificates",
+                text=SM + "For C13: all 24 orders of the top-level elements, unknown elements in any position, nine orders of the 18 TCB elements (incl. a seeded random permutation), and one deviation per case "
+                "(out-of-range / negative integers, wrong lengths, wrong ASN.1 types, nested encodings, trailing bytes, missing or duplicated elements, structural faults); returned values are compared with the encoded ones.", note=TRUST),
+    "C14": dict(engine="policy", design_ref="DESIGN.md §4 C14", technique="TLA+ model checking (TLC) of PolicyToOptions + validate + trace validation",
+                text=SM + "For C14 the same cases as C08 are expressed as check-config Policy messages (plus SVN minimums 65536 and 2^32-1): conversion must be refused for every malformed message, and a converted "
+                "policy must validate with the literal verdict.", note=TRUST),
+    "C15": dict(engine="guestclient", design_ref="DESIGN.md §4 C15", technique="TLA+ model checking (TLC) of the device / provider protocol + trace validation with scripted devices",
+                text=SM + "For C15 the full product of report result x quote result x status x OutLen x buffer content (2160 device behaviours) and all provider behaviours; every ioctl is logged with the facts the property names.", note=TRUST),
+    "C17": dict(engine="rtmr", design_ref="DESIGN.md §4 C17", technique="TLA+ model checking (TLC) of request histories over a model TSM + trace validation with an in-memory configfs client",
+                text=SM + "For C17 every history of two (thorough: three) requests over the request alphabet (indices incl. values that alias 0-3 when narrowed, digest lengths, hash algorithms, empty logs) from five initial TSM states; "
+                "every TSM write is bound (entry, index value, digest bytes) and the registers are compared after every call, as digest-id chains and as real SHA-384 extend values.", note=TRUST),
+    "C20": dict(engine="retry", design_ref="DESIGN.md §4 C20", technique="TLA+ model checking (TLC, safety + liveness under fairness) + trace validation of timed runs",
+                text=SM + "For C20 a grid of (Timeout, MaxRetryDelay) including zero and a cap above the initial delay is model-checked (first success returned, waits = scheduled delay <= cap, give-up bound, termination); "
+                "each (timeout, max, failures) case runs on the real getter with a scripted wrapped getter and a monotonic clock; lower timing bounds are strict, upper bounds carry 150 ms slack.",
+                note=TRUST + " The host clock; scheduler noise beyond the slack surfaces as exit 2 (unreproduced), never as a violation."),
+})
+CHECKS["C04"]["text"] += " The level selection itself is specified in spec/TcbLevels.tla (declarative first match vs the loops as coded, module identities, all seven statuses) and every case runs through verify.TdxQuote and SupportedTcbLevelsFromCollateral."
+CHECKS["C07"]["text"] += " QE level lists of up to two (thorough: three) levels in any order with all seven statuses are specified in spec/TcbLevels.tla and run through verify.TdxQuote."
+CHECKS["C12"]["text"] += " Histories (spec/VerifyHistory.tla): two calls in one process over worlds that share keys and deterministic signatures (honest twin, faulty world, other platform), through one shared Options value or fresh ones, every call judged by all single-call properties; plus one timed history with the wall-clock time set."
+
+ENGINES += [
+    {"name": "policy", "path": "spec/Policy.tla", "serves_properties": ["C08", "C14"], "kind_free_text": "TLA+ spec of validate.TdxQuote / PolicyToOptions + TLC + Go driver + TLC trace validation"},
+    {"name": "quotewire", "path": "spec/QuoteWire.tla", "serves_properties": ["C09", "C10"], "kind_free_text": "TLA+ specs QuoteWire / QuoteMsg / PcsResponse / NoCrash_Trace + TLC + Go drivers"},
+    {"name": "pckext", "path": "spec/PckExt.tla", "serves_properties": ["C13"], "kind_free_text": "TLA+ spec of the SGX extension fold + TLC + DER-level generator"},
+    {"name": "guestclient", "path": "spec/GuestClient.tla", "serves_properties": ["C15"], "kind_free_text": "TLA+ spec of the guest device protocol + TLC + scripted device"},
+    {"name": "rtmr", "path": "spec/Rtmr.tla", "serves_properties": ["C17"], "kind_free_text": "TLA+ spec of RTMR extension over a model TSM + TLC + in-memory configfs client"},
+    {"name": "retry", "path": "spec/Retry.tla", "serves_properties": ["C20"], "kind_free_text": "TLA+ spec of the retry loop (safety + liveness) + TLC + timed runs"},
+]
 NOT_APPLICABLE = [
     {"property_id": p, "reason": "check under construction in this round (specification and driver not yet registered); see DESIGN.md §4"}
-    for p in ("C08", "C09", "C10", "C13", "C14", "C15", "C16", "C17", "C18", "C19", "C20")
+    for p in ("C16", "C18", "C19")
 ]
